@@ -33,7 +33,7 @@ CFG = {
         "Swat4.C10.driver_runCall_consistent",
         "Swat4.C10.driver_expire_consistent",
     ],
-    "shards": (1, 16),
+    "shards": (4, 16),
     "nontrivial": _c10_nontrivial,
     "rule": "random histories of 2..12 items over 3 addresses / 3 instance ids on the real repositories (servers add/update/remove "
             "with all 512 status words, refresh times incl. zero, 4 resolver behaviours; instances add/remove/clear; probes "
